@@ -16,8 +16,18 @@ PROP = "C11"
 THEOREMS = ["Lbfgsb.C11.ls_points_in_box", "Lbfgsb.C11.ls_evals_le_cap", "Lbfgsb.C11.ls_result_downhill",
             "Lbfgsb.C11.maxStep_feasible", "Lbfgsb.C11.ls_trials_on_ray", "Lbfgsb.C11.dcsrch_steps_in_range",
             "Lbfgsb.C11.ls_result_in_range", "Lbfgsb.C11.ls_steps_in_range", "Lbfgsb.C11.ls_evals_on_ray", "Lbfgsb.C11.dcsrch_conv_is_wolfe", "Lbfgsb.C11.wolfe_gives_curvature", "Lbfgsb.C11.concreteOracles_stepper",
-            "Lbfgsb.C11.concrete_ls_steps_in_range"]
-MODULES = ["LbfgsbVerif.Props.C11"]
+            "Lbfgsb.C11.concrete_ls_steps_in_range",
+            "Lbfgsb.C14.display_evaluates_nothing"]
+MODULES = ["LbfgsbVerif.Props.C11",
+            "LbfgsbVerif.Props.C14"]
+
+
+def pre_build():
+    import sys
+    from harness.common import REPO, VERIF
+    sys.path.insert(0, str(VERIF / "translate"))
+    import state2lean
+    state2lean.main(str(REPO), str(VERIF / "lean" / "LbfgsbVerif" / "Generated" / "State.lean"))
 
 
 def evaluate(case: Dict[str, Any]) -> Dict[str, Any]:
@@ -185,7 +195,7 @@ def run(tier: str, seed: int) -> int:
               "nested": i % 6 == 5, "iprint": [-1, -1, 99, -1, 101, 100][i % 6] if i % 6 != 5 else -1}
              for i in range(n)]
     return run_property(
-        PROP, "harness.props.c11", THEOREMS, MODULES, cases, tier, seed,
+        PROP, "harness.props.c11", THEOREMS, MODULES, cases, tier, seed, pre_build=pre_build,
         rule="stand-alone calls of line_search: convex and oscillating non-convex objectives, feasible start, direction obtained by "
              "projecting a gradient step, iteration index 0 or later, caps 1..20, tolerances, a third of the calls with a logger at display levels 99..101, a sixth with an objective that itself runs a line search (same tolerances) at every evaluation; evaluated points / count / returned step "
              "checked on the real call; the call is replayed through the Lean model with the recorded DCSRCH answers; non-trivial = "
